@@ -1,8 +1,8 @@
 package props
 
 import (
-	"encoding/json"
 	"encoding/hex"
+	"encoding/json"
 	"sort"
 	"strings"
 
